@@ -1,6 +1,7 @@
 ------------------------------- MODULE EyeTrace -------------------------------
 (* C17, binding T.  Events (ppm = parts per million of b - a unless stated):
-     est   [finite, mu0e, mu1e, s0, s1, sigma, thr_in, tdist_ppm, topt_mid_ppm, i, i_int, sps, grid, populated]
+     est   [finite, mu0e, mu1e, s0, s1, sigma, thr_in, tdist_ppm, topt_mid_ppm, i, i_int, i_off, sps, grid, populated]
+             i_off = circular distance (1/1000 sample, modulo one slot) between the sampling index and the sample at t_opt
              mu0e = (mu0 - a), mu1e = (mu1 - b), s0/s1/sigma in ppm of (b-a); tdist_ppm = (t_right - t_left) in ppm of a slot;
              topt_mid_ppm = t_opt - (t_left + t_right)/2 in ppm of a slot
      equiv [finite, dmu0, dmu1, ds0, ds1, dthr, dtl, dtr, dto, same_i]
@@ -21,7 +22,10 @@ Clauses(e) ==
         (IF e.populated /\ Abs(e.tdist_ppm - 1000000) > 100000 THEN {"crossings-one-slot-apart"} ELSE {}) \cup
         \* all three instants lie on the eye's time grid (`grid` points per slot): midway up to one grid step (never less than 2 % of a slot)
         (IF e.populated /\ Abs(e.topt_mid_ppm) > (IF 1000000 \div e.grid > 20000 THEN 1000000 \div e.grid ELSE 20000) THEN {"t_opt-midway"} ELSE {}) \cup
-        (IF ~e.i_int \/ e.i < 0 \/ e.i >= e.sps THEN {"sampling-index-in-[0,sps)"} ELSE {})
+        (IF ~e.i_int \/ e.i < 0 \/ e.i >= e.sps THEN {"sampling-index-in-[0,sps)"} ELSE {}) \cup
+        \* ... and it is the index of the optimum instant (within the two samples by which rounding conventions differ), on eyes of >= 8 samples per slot
+        \* (plus one step of the eye grid when that is coarser than the signal's)
+        (IF e.sps >= 8 /\ Abs(e.i_off) > 2100 + (IF e.grid < e.sps THEN (1000 * e.sps) \div e.grid ELSE 0) THEN {"sampling-index-at-the-optimum-instant"} ELSE {})
     [] e.kind = "equiv" ->
         IF ~e.finite THEN {"finite-estimates"} ELSE
         (IF Abs(e.dmu0) > 1000 \/ Abs(e.dmu1) > 1000 \/ Abs(e.dthr) > 5000 THEN {"levels-equivariant"} ELSE {}) \cup
